@@ -38,9 +38,9 @@ def ring_raw(n, families=None, maxarg=None, pinned=False, force=False):
     meta = raw + '.meta.json'
     if os.path.exists(raw) and os.path.exists(meta) and not force:
         return raw, json.load(open(meta))
-    cfg = os.path.join(SPEC, '_gen_ring_%d_%d.cfg' % (n, os.getpid()))
+    cfg = os.path.join(SPEC, '_gen_ring_%d_%s_%d.cfg' % (n, key, os.getpid()))
     ring_cfg(cfg, n, pinned, 'oneshot', 1, maxarg, families)
-    md = os.path.join(OUT, 'work', 'md_ring_%d_%d' % (n, os.getpid()))
+    md = os.path.join(OUT, 'work', 'md_ring_%d_%s_%d' % (n, key, os.getpid()))
     t0 = time.time()
     try:
         rc, out = core.java_tlc(['-workers', '1', '-metadir', md, '-cleanup', '-noGenerateSpecTE',
@@ -194,3 +194,51 @@ def load_raw(path):
             if line:
                 out.append(json.loads(line))
     return out
+
+
+# ------------------------------------------------------------------------------------------------
+# byte-stream I/O scenarios (C14, C16)
+
+def io_layout_steps(n, start, size, fam):
+    st = [{"op": "new"}]
+    if n > 0 and start > 0:
+        st.append({"op": "write", "vals": [7] * start, "fam": fam})
+        st.append({"op": "read", "i": start, "fam": fam})
+    if size > 0:
+        st.append({"op": "write", "vals": [k + 1 for k in range(size)], "fam": fam})
+    return st
+
+
+def io_build(raw, sid, fam='std', poison=None):
+    lay = raw['lay']
+    steps = io_layout_steps(lay['n'], lay['start'], lay['size'], fam)
+    if poison:
+        steps.append({"op": "poison", "acc": poison})
+    for e in raw['evs']:
+        steps.append({"op": e['op'], "i": e['i'], "vals": e['vals'], "fam": fam})
+    # one more round trip so that the state after the call is exercised, not only observed
+    steps.append({"op": "fill_buf", "fam": fam})
+    steps.append({"op": "read", "i": 1, "fam": fam})
+    return {"id": sid, "n": lay['n'], "ty": "b", "tags": ["io", fam, raw['evs'][0]['op']], "steps": steps,
+            "pred": {"start": lay['start'], "size": lay['size']}}
+
+
+def io_random(rnd, n, sid, fams, length):
+    steps = [{"op": "new"}]
+    for _ in range(length):
+        fam = rnd.choice(fams)
+        r = rnd.random()
+        if r < 0.35:
+            k = rnd.choice([0, 1, 2, n, n + 1, 2 * n + 1, rnd.randint(0, 2 * n + 1)])
+            steps.append({"op": "write", "vals": [rnd.randint(0, 255) for _ in range(k)], "fam": fam})
+        elif r < 0.6:
+            steps.append({"op": "read", "i": rnd.choice([0, 1, 2, n, n + 2, rnd.randint(0, n + 2)]), "fam": fam})
+        elif r < 0.75:
+            steps.append({"op": "fill_buf", "fam": fam})
+        elif r < 0.92:
+            steps.append({"op": "consume", "i": rnd.choice([0, 1, 2, n, n + 2, 1073741824, rnd.randint(0, n + 2)]), "fam": fam})
+        elif r < 0.96:
+            steps.append({"op": "flush", "fam": fam})
+        else:
+            steps.append({"op": "poison", "acc": rnd.choice(["00", "ff", "5a"])})
+    return {"id": sid, "n": n, "ty": "b", "tags": ["io", "random"], "steps": steps}
